@@ -17,7 +17,7 @@ def ConstsOk : Prop :=
   Gen.probeTemplate = [':', '%', 's', ' ', '%', 's', ' ', '%', 's', ' ', ':', '%', 's', '\r', '\n'] ∧
   Gen.probePayload = ['.'] ∧
   Gen.countTemplate = ['(', '%', 'i', ' ', '%', 's', ')'] ∧ Gen.joinTemplate = ['%', 's', ' ', '%', 's'] ∧
-  Gen.nickPrefixTemplate = ['%', 's', ':', ' ', '%', 's']
+  Gen.nickPrefixTemplate = ['%', 's', ':', ' ', '%', 's'] ∧ Gen.colorDigits = 2
 
 instance : Decidable ConstsOk := by unfold ConstsOk; exact inferInstance
 
